@@ -176,42 +176,49 @@ def run_b(chk, kinds, progs, n_per, *, chi2=False, history=0):
     freq = {}
     for prog in progs:
         for arg in spec_arg_space(R.B, prog):
-            trs = []
-            if "simulate" in kinds:
-                for variant, n in (("eager", max(2, n_per // 10)), ("jit", max(2, n_per // 4)), ("vmap", n_per)):
-                    new = R.simulate(prog, arg, variant, n)
-                    trs += new[:3]
-                    if chi2:
-                        for e in R.events[-len(new):]:
-                            k = (prog, json.dumps(arg), json.dumps(e["leaves"]))
-                            freq.setdefault((prog, json.dumps(arg)), {}).setdefault(k, [0, e["score"]])[0] += 1
-                for tr in trs[:4]:
-                    R.assess(prog, arg, tr)
-            else:
-                trs = R.simulate(prog, arg, "jit", 2)
-                del R.events[-2:]
-            if "generate" in kinds:
-                for i in range(n_per):
-                    R.generate(prog, arg, "jit" if i % 2 else "eager")
-            args = spec_arg_space(R.B, prog)
-            if "update" in kinds:
-                for i in range(n_per):
-                    R.update(prog, arg, trs[i % len(trs)], R.rng.choice(args))
-            if "regenerate" in kinds:
-                sels = R.sels_for(prog)
-                for i in range(n_per):
-                    R.regenerate(prog, arg, trs[i % len(trs)], R.rng.choice(args), sels[i % len(sels)])
-            for h in range(history):
-                tr, a = trs[h % len(trs)], arg
-                for step in range(4):
-                    a2 = R.rng.choice(args)
-                    if R.rng.random() < 0.5:
-                        tr = R.update(prog, a, tr, a2)
-                    else:
-                        tr = R.regenerate(prog, a, tr, a2, R.rng.choice(R.sels_for(prog)))
-                    if R.rng.random() < 0.3:
-                        tr = jax.jit(lambda t: t)(tr)
-                    a = a2
+            try:
+                trs = []
+                if "simulate" in kinds:
+                    for variant, n in (("eager", max(2, n_per // 10)), ("jit", max(2, n_per // 4)), ("vmap", n_per)):
+                        new = R.simulate(prog, arg, variant, n)
+                        trs += new[:3]
+                        if chi2:
+                            for e in R.events[-len(new):]:
+                                k = (prog, json.dumps(arg), json.dumps(e["leaves"]))
+                                freq.setdefault((prog, json.dumps(arg)), {}).setdefault(k, [0, e["score"]])[0] += 1
+                    for tr in trs[:4]:
+                        R.assess(prog, arg, tr)
+                else:
+                    trs = R.simulate(prog, arg, "jit", 2)
+                    del R.events[-2:]
+                if "generate" in kinds:
+                    for i in range(n_per):
+                        R.generate(prog, arg, "jit" if i % 2 else "eager")
+                args = spec_arg_space(R.B, prog)
+                if "update" in kinds:
+                    for i in range(n_per):
+                        R.update(prog, arg, trs[i % len(trs)], R.rng.choice(args))
+                if "regenerate" in kinds:
+                    sels = R.sels_for(prog)
+                    for i in range(n_per):
+                        R.regenerate(prog, arg, trs[i % len(trs)], R.rng.choice(args), sels[i % len(sels)])
+                for h in range(history):
+                    tr, a = trs[h % len(trs)], arg
+                    for step in range(4):
+                        a2 = R.rng.choice(args)
+                        if R.rng.random() < 0.5:
+                            tr = R.update(prog, a, tr, a2)
+                        else:
+                            tr = R.regenerate(prog, a, tr, a2, R.rng.choice(R.sels_for(prog)))
+                        if R.rng.random() < 0.3:
+                            tr = jax.jit(lambda t: t)(tr)
+                        a = a2
+            except MachineryError:
+                raise
+            except Exception as ex:        # the code under test failed on a well-formed call: a definedness violation, not a harness failure
+                chk.violation(f"raised|prog={prog}|arg={arg}|{type(ex).__name__}",
+                              f"a GFI call on program {prog} (arg {arg}) raised {type(ex).__name__}: {str(ex).splitlines()[0][:160] if str(ex) else ''}",
+                              {"program": prog, "arg": arg, "ops": sorted(kinds)})
     rej = validate(chk, R.events, chk.pid)
     chk.validated(len(R.events) - len(rej))
     for i, clauses in rej.items():
